@@ -96,6 +96,7 @@ class C03(Prop):
             if rng.random() < 0.5:
                 close_reopen(c, rng)
             cases.append(c)
+        cases.extend(near_close(rng, 120 if tier == 'quick' else 2000))
         if tier == 'thorough':
             cases.extend(sign_patterns())
         else:
@@ -119,6 +120,29 @@ class C03(Prop):
 
     def matches_known(self, k, case, text):
         return False
+
+
+def near_close(rng, n):
+    """large positions that are almost, but not fully, closed (long and short), then re-marked and traded on"""
+    out = []
+    for _ in range(n):
+        t = bl.MON
+        sgn = rng.choice([1, -1])
+        big = [rng.randint(10000, 900000) for _ in range(rng.randint(1, 3))]
+        resid = rng.choice([1, 2, 5, 9, 25, 100])
+        p = float(rng.randint(8, 800)) / 8
+        ops = []
+        for i, q in enumerate(big):
+            ops.append(['txn', 'AAA', sgn * q, t + i * 60, p + i * 0.125, rng.choice([0.0, 1.0, 2.5])])
+        ops.append(['txn', 'AAA', -sgn * (sum(big) - resid), t + 600, p + 1.0, rng.choice([0.0, 1.0])])
+        ops.append(['mark', 'AAA', p + 2.0, t + 660])
+        if rng.random() < 0.5:
+            ops.append(['txn', 'AAA', sgn * rng.randint(1, 50), t + 720, p + 1.5, 0.0])
+            ops.append(['mark', 'AAA', p + 0.5, t + 780])
+        if rng.random() < 0.5:
+            ops.append(['txn', 'AAA', -sgn * resid, t + 840, p + 3.0, 0.0])
+        out.append({'kind': 'portfolio', 'stream': 'nearclose', 'start': t, 'cash': float(rng.randint(0, 10**9)), 'ops': ops, 'exact': True})
+    return out
 
 
 def sign_patterns(maxlen=5):
